@@ -3,12 +3,20 @@
      2  spec flag conditions     fmt r o dy                      -> ovf unf inacc
      4  spec quantize (list)     fmt r o [dy]                    -> codes, any-ovf any-unf any-inacc
      3  NP primitive             sub-op args                     -> value   (NP-layer validation)
+    20  model history            fmt r o status [step]           -> per step: status, callbacks fired
     10  model set_val (real)     fmt r o raw arr vd              -> codes, flags, read-back values
 *)
 From Coq Require Import ZArith List Bool.
-From FxpVerif Require Import Spec NP Store Wire.
+From FxpVerif Require Import Spec NP Store Status Wire.
 Import ListNotations.
 Open Scope Z_scope.
+
+Definition dstatus : dec status :=
+  a <- dbool ;; b <- dbool ;; c <- dbool ;; d <- dbool ;; dret {| st_ovf := a; st_unf := b; st_inacc := c; st_extp := d |}.
+Definition dhstep : dec hstep :=
+  t <- dZ ;; match t with 0 => (a <- darr ;; vd <- dvdt ;; dret (HWrite a vd)) | _ => dret HReset end.
+Definition estatus (st : status) : list Z := ebool (st_ovf st) ++ ebool (st_unf st) ++ ebool (st_inacc st) ++ ebool (st_extp st).
+Definition ecbev (e : cbev) : Z := match e with EvOvf => 0 | EvUnf => 1 | EvInacc => 2 | EvChange => 3 end.
 
 Definition ewres (f : fmt) (w : wres) : list Z :=
   elist (fun c => [c]) (w_codes w) ++ ebool (w_ovf w) ++ ebool (w_unf w) ++ ebool (w_inacc w)
@@ -49,5 +57,9 @@ Definition dispatch (req : list Z) : list Z :=
   | 10 :: t => run (f <- dfmt ;; r <- drmode ;; o <- domode ;; raw <- dbool ;; a <- darr ;; vd <- dvdt ;;
                     dret (f, r, o, raw, a, vd))
                 (fun '(f, r, o, raw, a, vd) => eoutcome (ewres f) (set_val_real f r o raw a vd)) t
+  | 20 :: t => run (f <- dfmt ;; r <- drmode ;; o <- domode ;; st <- dstatus ;; steps <- dlist dhstep ;; dret (f, r, o, st, steps))
+                (fun '(f, r, o, st, steps) =>
+                   eoutcome (elist (fun p => estatus (fst p) ++ elist (fun e => [ecbev e]) (snd p)))
+                            (history_run f r o st steps)) t
   | _ => bad_request
   end.
